@@ -374,3 +374,95 @@ Proof.
   split; [|reflexivity]. apply swath_eq_shape; reflexivity.
 Qed.
 Print Assumptions C12_hash_attr_slice_refuted.
+
+(* ------------------------------------------------------------------------------------------------
+   9. wave 3 -- code is model: loop-carrying / stateful / branching methods translated by tools/py2coq_imp.py
+   (Gen/GenC12imp.v, regenerated from the source on every run).  The array bytes (bytes_of), np.concatenate (cat) and
+   sha1 + int (toint) are abstract; every statement bounds the fuel, Fuel is never an answer. *)
+From PR Require Import Base.Imp Model.ImpHash Gen.GenC12imp Proofs.C12_imp.
+
+(* get_array_hashable: attrs['hash'] of a DataArray else what its .data gives; a dask array's name; else the bytes --
+   in this order (a DataArray's own .name is never consulted) *)
+Theorem C12_imp_get_array_hashable_code_is_model :
+  forall (A HV : Type) (bytes_of : A -> HV) (hv0 : HV) (a : parr A HV) (fuel : nat), (depth a < fuel)%nat ->
+  value_of (imp_get_array_hashable bytes_of hv0 fuel a) = COk (arr_hashable bytes_of a).
+Proof. intros. apply gah_code_is_model. assumption. Qed.
+Print Assumptions C12_imp_get_array_hashable_code_is_model.
+Example C12_imp_gah_ex :
+  value_of (imp_get_array_hashable (fun x : Z => [x]) [] 3 (PXr (Some [7]) None (PXr None (Some [9]) (PDask [5] 1)))) = COk [9].
+Proof. reflexivity. Qed.
+
+(* BaseDefinition.update_hash feeds lons, lats (and the mask of a masked lons) and does NOT depend on self.hash *)
+Theorem C12_imp_update_hash_code_is_model :
+  forall (A HV : Type) (bytes_of : A -> HV) (hv0 : HV) (g : hgeo A HV) (h : hlg HV) (m : option Z) (fuel : nat),
+  (depth (hg_lons g) < fuel)%nat -> (depth (hg_lats g) < fuel)%nat ->
+  value_of (imp_base_update_hash bytes_of hv0 fuel g h) = COk (geo_update_hash bytes_of g h) /\
+  value_of (imp_base_update_hash bytes_of hv0 fuel (mk_hgeo (hg_lons g) (hg_lats g) m (hg_ndim g) (hg_nprocs g)) h)
+  = value_of (imp_base_update_hash bytes_of hv0 fuel g h).
+Proof. intros. split; [apply update_hash_code_is_model | apply update_hash_ignores_memo]; assumption. Qed.
+Print Assumptions C12_imp_update_hash_code_is_model.
+
+(* ... and on a swath of the hand model (kinds numpy / xarray / xarray+dask / xarray with attrs['hash']) what it feeds
+   concatenates to swath_image, the byte image all C12 theorems are about *)
+Theorem C12_imp_update_hash_is_swath_image :
+  forall (T : Type) (s : swath T) (m : option Z) (h : hlg (list (tok T))), 0 <= s_kind s <= 3 ->
+  exists fed, value_of (imp_base_update_hash rows_bytes [] 2 (hgeo_of s m) h) = COk (Some (hlg_fed h ++ fed)) /\
+              concat fed = swath_image s.
+Proof.
+  intros T s m h Hk. exists (geo_fed rows_bytes (hgeo_of s m)). split; [|apply swath_image_is_fed; exact Hk].
+  destruct (hgeo_of_depth s m). apply update_hash_code_is_model; assumption.
+Qed.
+Print Assumptions C12_imp_update_hash_is_swath_image.
+
+(* __hash__ of BaseDefinition and of SwathDefinition: returns the memo, filling it on first use with the digest of
+   the CURRENT coordinates *)
+Theorem C12_imp_hash_code_is_model :
+  forall (A HV : Type) (bytes_of : A -> HV) (toint : option (list HV) -> Z) (hv0 : HV) (g : hgeo A HV) (fuel : nat),
+  (depth (hg_lons g) < fuel)%nat -> (depth (hg_lats g) < fuel)%nat ->
+  (let r := imp_base_hash bytes_of toint hv0 fuel g in
+   value_of r = COk (Some (geo_hash_of bytes_of toint g)) /\
+   match state_of r with COk s => imp_base_hash_self s = geo_do_hash bytes_of toint g | _ => False end) /\
+  (let r := imp_swath_hash bytes_of toint hv0 fuel g in
+   value_of r = COk (Some (geo_hash_of bytes_of toint g)) /\
+   match state_of r with COk s => imp_swath_hash_self s = geo_do_hash bytes_of toint g | _ => False end).
+Proof. intros. split; [apply base_hash_code_is_model | apply swath_hash_code_is_model]; assumption. Qed.
+Print Assumptions C12_imp_hash_code_is_model.
+
+(* append: DimensionError or both arrays concatenated and the memo reset; concatenate: a new object with an empty memo *)
+Theorem C12_imp_append_concatenate_code_is_model :
+  forall (A HV : Type) (cat : A -> A -> A) (a0 : A) (g o : hgeo A HV),
+  match state_of (imp_coord_append cat g o) with
+  | COk s => hg_ndim g = hg_ndim o /\ imp_coord_append_self s = geo_append cat g o
+  | CRaised => hg_ndim g <> hg_ndim o
+  | CFuel => False
+  end /\
+  value_of (imp_coord_concatenate cat a0 g o) =
+  (if hg_ndim g =? hg_ndim o
+   then COk (mk_hgeo (pa_concat cat (hg_lons g) (hg_lons o)) (pa_concat cat (hg_lats g) (hg_lats o)) None (hg_ndim g)
+                     (Z.min (hg_nprocs g) (hg_nprocs o)))
+   else CRaised).
+Proof. intros. split; [apply append_code_is_model | apply concatenate_code_is_model]. Qed.
+Print Assumptions C12_imp_append_concatenate_code_is_model.
+
+(* the memo state machine run by the TRANSLATED hash() and append(), any order, any length: the memo is empty or the
+   digest of the current coordinates (fuel: one more than the deepest DataArray nesting of the start object) *)
+Theorem C12_imp_memo_invariant :
+  forall (A HV : Type) (bytes_of : A -> HV) (cat : A -> A -> A) (toint : option (list HV) -> Z) (hv0 : HV)
+         (fuel : nat) (ops : list (gop (A:=A) (HV:=HV))) (g : hgeo A HV),
+  (hist_depth g < fuel)%nat -> hg_hash g = None ->
+  geo_memo_ok bytes_of toint (fold_left (gstep_imp bytes_of cat toint hv0 fuel) ops g).
+Proof. intros. apply imp_memo_invariant; [assumption | left; assumption]. Qed.
+Print Assumptions C12_imp_memo_invariant.
+Example C12_imp_history_ex :
+  let g := mk_hgeo (PXr None None (PNp 1 None)) (PNp 2 None) None 2 1 in
+  let o := fold_left (gstep_imp (fun x : Z => x) Z.add (fun h => match h with Some l => fold_left Z.add l 0 | None => 0 end) 0 2)
+                     [GHash; GAppend g; GHash; GAppend g] g in
+  hg_hash o = None /\ hg_lons o = PNp 3 None.
+Proof. split; reflexivity. Qed.
+
+(* StackedAreaDefinition.update_hash: the loop over the members feeds their images in order *)
+Theorem C12_imp_stacked_update_hash_code_is_model :
+  forall (T : Type) (OP : ops T) (st : hstack T) (h : hl T), hs_defs st <> [] ->
+  value_of (imp_stacked_update_hash OP st h) = COk (Some (hl_tokens h ++ stack_image OP (hs_defs st))).
+Proof. intros T OP st h Hne. rewrite stacked_update_hash_code_is_model. rewrite fold_area_update by exact Hne. reflexivity. Qed.
+Print Assumptions C12_imp_stacked_update_hash_code_is_model.
